@@ -3,7 +3,7 @@
 # record which properties raise violations, revert.  Never commits to /repo.
 root=${1:-/verif/seeded}
 cd /repo && git diff --quiet || { echo "repo dirty"; exit 2; }
-for p in $(ls -d $root/C*/*/patch.diff $root/C*/out/*/patch.diff 2>/dev/null | sort); do
+for p in $(ls -d $root/C*/patch.diff $root/C*/out/*/patch.diff 2>/dev/null | sort); do
   d=$(dirname $p)
   if ! git -C /repo apply --check $p 2>/dev/null; then echo "$d: PATCH-DOES-NOT-APPLY"; continue; fi
   git -C /repo apply $p
